@@ -119,13 +119,26 @@ def no_raise_clause(res, n_garbage):
             strings.append("".join(rng.choice(alphabet) for _ in range(rng.randint(0, 26))))
         else:
             strings.append("".join(chr(rng.choice([rng.randint(32, 126), rng.randint(0x80, 0x24f), rng.randint(0xff10, 0xff19)])) for _ in range(rng.randint(0, 20))))
+    # very long inputs (error messages quote the input), datetimes padded with white space
+    some = notation(9000 * 86400 + 82800, 0)
+    strings += ["x" * 1500, "9" * 3000, some + " " * 2000, (some + " ") * 120, "\u00e4" * 1100, " " + some, some + " ", "\t" + some + "\n", some + "\u00a0"]
+    from ahbicht.content_evaluation.fc_evaluators import text_to_be_evaluated_by_format_constraint as var
+    from ahbicht.expressions.format_constraint_expression_evaluation import format_constraint_evaluation
+    ahb.use_provider([ev])
+
+    async def through_expression(k, s):
+        var.set(s)
+        r = await format_constraint_evaluation(f"[{k}]")
+        return r.format_constraints_fulfilled, r.error_message
+
+    loop = asyncio.new_event_loop()
     for s in strings:
         for k in (931, 932, 933, 934, 935):
             res.count("evaluations")
             try:
                 r = getattr(ev, f"evaluate_{k}")(s)
             except BaseException as e:  # pylint:disable=broad-except
-                res.violation(f"evaluate_{k}({s!r}) raised {type(e).__name__}: {e}; no string input may make these constraints raise", {"string": s, "key": k})
+                res.violation(f"evaluate_{k}({s[:80]!r}) (length {len(s)}) raised {type(e).__name__}: {str(e)[:200]}; no string input may make these constraints raise", {"string": s, "key": k})
                 continue
             if not isinstance(r, EvaluatedFormatConstraint):
                 res.violation(f"evaluate_{k}({s!r}) returned {type(r).__name__}", {"string": s, "key": k})
@@ -133,6 +146,20 @@ def no_raise_clause(res, n_garbage):
                 res.violation(f"evaluate_{k}({s!r}) is unfulfilled without an error message", {"string": s, "key": k})
             elif r.format_constraint_fulfilled and s in DEFINITELY_INVALID:
                 res.violation(f"evaluate_{k}({s!r}) is fulfilled although the string is no datetime with UTC offset", {"string": s, "key": k})
+            else:
+                # the same constraint reached through the expression evaluation judges the same text
+                try:
+                    got, msg = loop.run_until_complete(through_expression(k, s))
+                except BaseException as e:  # pylint:disable=broad-except
+                    res.violation(f"format_constraint_evaluation('[{k}]') on {s[:80]!r} (length {len(s)}) raised {type(e).__name__}; no string input may make these "
+                                  "constraints raise", {"string": s, "key": k})
+                    continue
+                if bool(got) != bool(r.format_constraint_fulfilled):
+                    res.violation(f"format_constraint_evaluation('[{k}]') on {s[:80]!r} reports fulfilled={got}, evaluate_{k} on the same text {r.format_constraint_fulfilled}",
+                                  {"string": s, "key": k})
+                elif not got and not msg:
+                    res.violation(f"format_constraint_evaluation('[{k}]') on {s[:80]!r} is unfulfilled without an error message", {"string": s, "key": k})
+    loop.close()
     res.coverage["no_raise_strings"] = len(strings)
 
 
